@@ -343,7 +343,19 @@ func runC02(p *core.Prog, r *core.Report) {
 
 	// ---- R3: level gate at every Handler.Handle call outside handlers
 	hIface := p.Named("logger", "Handler")
+	// judged on the logger package's inlined views (a Handle call in a private helper is gated by what its callers
+	// tested) and on every other function of the module
+	var gateFns []*ssa.Function
 	for _, fn := range p.ModuleFuncs() {
+		if rootFn(fn).Pkg != p.SPkgs["logger"] {
+			gateFns = append(gateFns, fn)
+		}
+	}
+	for _, v := range pkgViews(p, "logger") {
+		gateFns = append(gateFns, sx.WithClosures(v.Fn)...)
+	}
+	for _, fn := range gateFns {
+		fn := fn
 		if allMethods[rootFn(fn)] {
 			continue
 		}
@@ -351,6 +363,9 @@ func runC02(p *core.Prog, r *core.Report) {
 			c, ok := in.(ssa.CallInstruction)
 			if !ok || !c.Common().IsInvoke() || c.Common().Method.Name() != "Handle" || !types.Identical(c.Common().Value.Type(), hIface) {
 				return
+			}
+			if allMethods[rootFn(sx.SourceFunc(in))] {
+				return // a handler's own code expanded into a caller
 			}
 			construct := "Handle call in " + fnName(fn) + " #" + recordTag(c)
 			ok2, detail := levelGated(p, fn, c)
